@@ -223,6 +223,15 @@ func c16JudgePair(c *Check, rule string, pk *packages.Package, key string, pos t
 		if o := objOf(info, l); o != nil && tracked[o] {
 			return o.Name(), true
 		}
+		// a field of a tracked local (err.Code, err.EnhancedCode): its own cell, so that an in-place rewrite of one
+		// member of the pair is seen (and a copy taken before the rewrite is told apart from one taken after)
+		if se, ok := l.(*ast.SelectorExpr); ok && fieldOf(info, se) != nil {
+			if id, ok := ast.Unparen(se.X).(*ast.Ident); ok {
+				if o := objOf(info, id); o != nil && tracked[o] {
+					return o.Name() + "." + se.Sel.Name, true
+				}
+			}
+		}
 		return "", false
 	}
 	pe := &pathEvaluator{f: flow, budget: 20000, tracked: trk}
@@ -273,6 +282,9 @@ func envLookup(info *types.Info, trk func(ast.Expr) (string, bool), env map[stri
 		if k, ok := trk(e); ok {
 			if v, has := env[k]; has {
 				return v, true
+			}
+			if strings.Contains(k, ".") {
+				return absVal{}, false // a field never stored to on this path: the evaluator's symbolic copy
 			}
 			return absVal{K: absUnknown}, true
 		}
